@@ -372,37 +372,39 @@ impl Matcher {
                 }
             }
 
-            // Apply corporate actions for the day (before same-day buys)
+            // Apply the day's cost adjustments (before same-day buys). Accumulations go first so
+            // that the s122 check below sees the expenditure of the whole day, whatever the order of
+            // the lines: an accumulation and a capital return of the same date offset each other.
             for tx in &transactions[i..day_end] {
-                match &tx.operation {
-                    Operation::CapReturn {
-                        total_value, fees, ..
-                    } => {
-                        let net_value = *total_value - *fees;
-                        if let Some(ledger) = ledgers.get_mut(&tx.ticker) {
-                            let basis_before = ledger.total_adjusted_cost();
-                            if net_value > basis_before {
-                                return Err(CgtError::InvalidTransaction(format!(
-                                    "CAPRETURN {} on {}: capital distribution £{} exceeds \
-                                     allowable cost £{}. TCGA92/S122(2) does not apply when \
-                                     distribution exceeds expenditure (CG57847). \
-                                     Part-disposal under S122(1) or election under S122(4) \
-                                     is required.",
-                                    tx.ticker,
-                                    tx.date,
-                                    net_value.round_dp(2),
-                                    basis_before.round_dp(2)
-                                )));
-                            }
-                            ledger.apply_cost_adjustment(-net_value);
+                if let Operation::Accumulation { total_value, .. } = &tx.operation
+                    && let Some(ledger) = ledgers.get_mut(&tx.ticker)
+                {
+                    ledger.apply_cost_adjustment(*total_value);
+                }
+            }
+            for tx in &transactions[i..day_end] {
+                if let Operation::CapReturn {
+                    total_value, fees, ..
+                } = &tx.operation
+                {
+                    let net_value = *total_value - *fees;
+                    if let Some(ledger) = ledgers.get_mut(&tx.ticker) {
+                        let basis_before = ledger.total_adjusted_cost();
+                        if net_value > basis_before {
+                            return Err(CgtError::InvalidTransaction(format!(
+                                "CAPRETURN {} on {}: capital distribution £{} exceeds \
+                                 allowable cost £{}. TCGA92/S122(2) does not apply when \
+                                 distribution exceeds expenditure (CG57847). \
+                                 Part-disposal under S122(1) or election under S122(4) \
+                                 is required.",
+                                tx.ticker,
+                                tx.date,
+                                net_value.round_dp(2),
+                                basis_before.round_dp(2)
+                            )));
                         }
+                        ledger.apply_cost_adjustment(-net_value);
                     }
-                    Operation::Accumulation { total_value, .. } => {
-                        if let Some(ledger) = ledgers.get_mut(&tx.ticker) {
-                            ledger.apply_cost_adjustment(*total_value);
-                        }
-                    }
-                    _ => {}
                 }
             }
 
